@@ -30,6 +30,18 @@ impl BigEndian {
         requires buf@.len() >= 16,
         ensures r == be128_def(buf@.subrange(0, 16)),
     { unimplemented!() }
+    // writes through a slice that is passed as such (`BigEndian::write_uN(dest, v)`, or `&mut x[a..b]` where rule R5 does not
+    // apply): the first N/8 bytes big-endian, nothing else touched; the real call panics when the slice is shorter
+    #[verifier::external_body]
+    pub fn write_u16(buf: &mut [u8], n: u16)
+        requires old(buf)@.len() >= 2,
+        ensures final(buf)@ == seq![(n >> 8) as u8, (n & 0xff) as u8] + old(buf)@.subrange(2, old(buf)@.len() as int),
+    { unimplemented!() }
+    #[verifier::external_body]
+    pub fn write_u32(buf: &mut [u8], n: u32)
+        requires old(buf)@.len() >= 4,
+        ensures final(buf)@ == seq![(n >> 24) as u8, ((n >> 16) & 0xff) as u8, ((n >> 8) & 0xff) as u8, (n & 0xff) as u8] + old(buf)@.subrange(4, old(buf)@.len() as int),
+    { unimplemented!() }
 }
 // R5 target: `BigEndian::write_u16(&mut X[a..b], v)`; real call panics unless b - a >= 2 and b <= len
 #[verifier::external_body]
